@@ -280,12 +280,19 @@ def sec_finite_kernels(rep, tier):
                 rep.cases += 1
                 try:
                     it = n3lo.interpolator(coeff, nf=nf, variation=var)
-                    tx, ty = it.get_knots()
-                    c = it.get_coeffs()
-                    samples = [(xi, eta, float(it(xi, eta)[0, 0])) for xi in (0.5, 8.77, 2.0e3) for eta in (1e-3, 1.0, 50.0)]
+                    # inside the table, on its edges and OUTSIDE it (the coefficient functions ask at
+                    # eta down to the pair threshold and up to xi/(4z)): a number everywhere
+                    samples = [(xi, eta, float(np.asarray(it(xi, eta)).ravel()[0])) for xi in (1e-4, 1e-3, 0.5, 8.77, 2.0e3, 1.0e7, 1.0e9, 1.0e11) for eta in (1e-8, 1e-5, 1e-3, 1.0, 50.0, 9.9e5, 1.0e8)]
                     bad = [s_ for s_ in samples if not np.isfinite(s_[2])]
-                    ok = bool(np.isfinite(c).all() and np.isfinite(tx).all() and np.isfinite(ty).all() and not bad)
-                    detail = f"{c.size} spline coefficients, {int((~np.isfinite(c)).sum())} non-finite; samples {samples[:2]}"
+                    if hasattr(it, "get_coeffs"):  # a FITPACK spline: finite everywhere iff its coefficients and knots are
+                        tx, ty = it.get_knots()
+                        c = it.get_coeffs()
+                        spline_ok = bool(np.isfinite(c).all() and np.isfinite(tx).all() and np.isfinite(ty).all())
+                        detail = f"{c.size} spline coefficients, {int((~np.isfinite(c)).sum())} non-finite; {len(samples)} evaluations inside, on the edges of and outside the table, {len(bad)} non-finite"
+                    else:
+                        spline_ok = True
+                        detail = f"{len(samples)} evaluations inside, on the edges of and outside the table, {len(bad)} non-finite (interpolator {type(it).__name__}: no coefficient-level argument, lattice only)"
+                    ok = bool(spline_ok and not bad)
                     inputs = {} if ok else {"coeff": coeff, "nf": nf, "variation": var, "xi": (bad or samples)[0][0], "eta": (bad or samples)[0][1], "value": repr((bad or samples)[0][2])}
                 except Exception as e:  # noqa
                     ok, detail, inputs = False, f"{type(e).__name__}: {e}", {"coeff": coeff, "nf": nf, "variation": var}
